@@ -67,6 +67,14 @@ pub mod payload {
 }
 pub mod table {
     use crate::vstd as std;
+    // prelude `Vec` and `vec![]` are shadowed by the inline-storage model (see models/smallvec: heap vectors with a
+    // symbolic length exhaust CBMC's memory in set_claims)
+    use crate::vstd::vecmodel::Vec;
+    macro_rules! vec {
+        () => {
+            crate::vstd::vecmodel::Vec::new()
+        };
+    }
     include!(concat!(env!("VERIF_REPO"), "/src/table.rs"));
     #[cfg(any(kani, vh_playback))]
     pub mod verif {
